@@ -23,12 +23,18 @@ add A B DST | extend A B DST | append A VEC DST | tosparse A DST | todense A DST
                                           -> ok KIND NPIX NMODES ROWS | err value
 nnz NAME                                  -> ok N   (stored entries; dense: npix*nmodes)
 lstsq NAME VECTOR                         -> ok VECTOR | err rank
+sliceidx N A B C                          -> ok START STOP STEP [positions] | err value   (`sliceIndices`, `sliceIdx`; `-` = None)
+seginfl NPIX COLS XS YS                   -> ok ROWS   (`segInfl`: segments as rows of COLS, grid coordinates XS YS)
 mirror new NPIX NMODES ROWS | assign V | alias H | edit H I X | flatten | random V
        | setif NPIX NMODES ROWS | read    -> ok … (read: ok VECTOR hit|miss; the K-th read, K = 0,1,…, hands out array K)
        | sedit K I X                      -> ok      (in-place edit of handed-out surface array K)
        | held K                           -> ok VECTOR (contents of handed-out surface array K)
        | opd                              -> ok VECTOR hit|miss  (`readOpd`: one read of the surface — it takes an ordinal K
                                              like a read, nobody keeps that array — and the doubled values)
+       | segset NSEG ID P T TL            -> ok      (`setSegment`: set_segment_actuators on a mirror of NSEG segments)
+       | segget NSEG ID                   -> ok P T TL (`getSegment`: get_segment_actuators)
+       | phase WL                         -> ok TURNS hit|miss   (`readPhase`: phase_for(WL) = 2π·TURNS; a read like opd)
+       | forward|backward WL AMPS TURNS   -> ok AMPS' TURNS' POWER hit|miss  (`forward`/`backward` on the field AMPS·exp(2πi·TURNS); a read like opd)
        | ideal                            -> ok SURFACE OPD | err spec-diverged
                                              (the cache-free specification, stepped alongside by `Spec.step`: its read and its opd;
                                               `err` when its state is not `spec` of the cached mirror's state)
@@ -175,6 +181,35 @@ def mirrorStep (st : St) : List String → St × String
         let r := Mirror.readOpd mir
         ({ st with mirror := some r.1, ideal := st.ideal.map fun s => (s.step .read).1 },
           s!"ok {showVec r.2} {if hit then "hit" else "miss"}")
+      | ["segset", nseg, id, p, t, tl] =>
+        -- `set_segment_actuators(id, p, t, tl)` on a mirror of NSEG segments (`setSegment`: three in-place edits)
+        match parseNat? nseg, parseNat? id, parseC? p, parseC? t, parseC? tl with
+        | some nseg, some id, some p, some t, some tl =>
+          if id < nseg && (acts mir).length == 3 * nseg then
+            ({ st with mirror := some (setSegment mir nseg id p t tl),
+                       ideal := st.ideal.map fun s =>
+                         (((s.step (.edit mir.cur id p)).1.step (.edit mir.cur (id + nseg) t)).1.step
+                           (.edit mir.cur (id + 2 * nseg) tl)).1 }, "ok")
+          else (st, "bad-op")
+        | _, _, _, _, _ => (st, "bad-op")
+      | ["segget", nseg, id] =>
+        match parseNat? nseg, parseNat? id with
+        | some nseg, some id =>
+          if id < nseg && (acts mir).length == 3 * nseg then
+            let r := getSegment mir nseg id
+            (st, s!"ok {showC r.1} {showC r.2.1} {showC r.2.2}")
+          else (st, "bad-op")
+        | _, _ => (st, "bad-op")
+      | ["phase", wl] =>
+        -- `phase_for(WL)` in turns (`readPhase`): the phase is 2π times the answer
+        match parseC? wl with
+        | some wl =>
+          if wl = 0 then (st, "bad-op") else
+          let hit := decide (mir.cached = some (acts mir))
+          let r := readPhase wl mir
+          ({ st with mirror := some r.1, ideal := st.ideal.map fun s => (s.step .read).1 },
+            s!"ok {showVec r.2} {if hit then "hit" else "miss"}")
+        | none => (st, "bad-op")
       | ["ideal"] =>
         match st.ideal with
         | some s =>
@@ -202,6 +237,18 @@ def mirrorStep (st : St) : List String → St × String
           | some h => (st, s!"ok {showVec (mir.sheap.getD h [])}")
           | none => (st, "bad-op")
         | none => (st, "bad-op")
+      | [dir, wl, amps, turns] =>
+        -- `forward(wf)` / `backward(wf)` for the field `AMPS[i] · exp(2πi · TURNS[i])` at wavelength WL
+        match parseC? wl, parseVec? amps, parseVec? turns with
+        | some wl, some amps, some turns =>
+          if wl = 0 || amps.length != turns.length || amps.length != mir.infl.length
+              || (dir != "forward" && dir != "backward") then (st, "bad-op") else
+          let e : List (PVal CRat) := List.zipWith PVal.mk amps turns
+          let hit := decide (mir.cached = some (acts mir))
+          let r := if dir == "forward" then Mirror.forward wl e mir else Mirror.backward wl e mir
+          ({ st with mirror := some r.1, ideal := st.ideal.map fun s => (s.step .read).1 },
+            s!"ok {showVec (r.2.map (·.amp))} {showVec (r.2.map (·.turns))} {showC (power (fun a => ⟨CRat.normSq a, 0⟩) r.2)} {if hit then "hit" else "miss"}")
+        | _, _, _ => (st, "bad-op")
       | _ => (st, "bad-op")
 
 def step (st : St) : List String → St × String
@@ -275,6 +322,23 @@ def step (st : St) : List String → St × String
         if certified CRat.conj b x y then (st, "ok " ++ showVec x)
         else (st, "err internal")
     | _, _ => (st, "bad-op")
+  | ["sliceidx", n, a, b, c] =>
+    -- `slice(A, B, C).indices(N)` and the positions it selects (`-` = None)
+    match parseNat? n, parseOptInt? a, parseOptInt? b, parseOptInt? c with
+    | some n, some a, some b, some c =>
+      match sliceIndices n a b c, sliceIdx n a b c with
+      | some t, some l => (st, s!"ok {t.1} {t.2.1} {t.2.2} {showList (fun (x : Nat) => toString x) l}")
+      | none, none => (st, "err value")
+      | _, _ => (st, "err internal")
+    | _, _, _, _ => (st, "bad-op")
+  | ["seginfl", npix, cols, xs, ys] =>
+    -- the influence functions `SegmentedDeformableMirror` builds from its segments (`segInfl`)
+    match parseNat? npix, parseMat? cols, parseVec? xs, parseVec? ys with
+    | some n, some cols, some xs, some ys =>
+      if xs.length == n && ys.length == n && cols.all (·.length == n) then
+        (st, "ok " ++ showMat (segInfl cols xs ys))
+      else (st, "bad-op")
+    | _, _, _, _ => (st, "bad-op")
   | "mirror" :: rest => mirrorStep st rest
   | _ => (st, "bad-op")
 
